@@ -379,6 +379,8 @@ def _run_tw_udp(framing_cls, ctx, script, flags):
 
 def run(frontend, framing, ctx, script, ignore_missing_slaves=False, broadcast_enable=False):
     from vlib import pm
+    # an empty read is end-of-stream on a socket and cannot be received as a datagram: never deliver one
+    script = [(c, d) for c, d in script if d]
     fc = pm.framer_class(framing)
     flags = {'ignore_missing_slaves': ignore_missing_slaves, 'broadcast_enable': broadcast_enable}
     if frontend in ('sync_tcp', 'sync_serial'):
